@@ -542,9 +542,10 @@ func main() {
 		srng.Shuffle(len(hooked), func(i, j int) { hooked[i], hooked[j] = hooked[j], hooked[i] })
 		// runs in which more events than workers can be in flight come first (and use W = 2): these are the runs in
 		// which the semaphore bound and the hand-over between workers are visible in the recorded events
-		sort.SliceStable(hooked, func(i, j int) bool { return len(hooked[i].c.Files) >= 3 && len(hooked[j].c.Files) < 3 })
+		multi := func(c *tcase) bool { return len(c.Files) >= 3 && len(c.Files) <= 6 }
+		sort.SliceStable(hooked, func(i, j int) bool { return multi(hooked[i].c) && !multi(hooked[j].c) })
 		for i := range hooked {
-			if len(hooked[i].c.Files) >= 3 && i%4 != 3 {
+			if multi(hooked[i].c) && i%4 != 3 {
 				hooked[i].w = 2
 			}
 		}
@@ -633,7 +634,7 @@ func main() {
 					args := generatecmd.Arguments{Path: root, WorkerCount: j.w, KeepOrphanedFiles: c.Flags.Keep, Lazy: c.Flags.Lazy, IncludeVersion: c.Flags.Ver}
 					var trace []traceLine
 					var after1 snapshot
-					record := j.hooked && traceOut != nil && (j.n%traceEvery == 0 || (len(c.Files) >= 3 && j.n < maxTraced/2))
+					record := j.hooked && traceOut != nil && (j.n%traceEvery == 0 || (len(c.Files) >= 3 && len(c.Files) <= 6 && j.n < maxTraced/2))
 					rng := rand.New(rand.NewSource(seed*1000003 + int64(c.ID)*31 + int64(j.w)*7 + int64(j.rep)))
 					for run := 1; run <= 2 && len(fl) == 0; run++ {
 						if record {
